@@ -152,16 +152,17 @@ ProvenWithLatest ==
     {p \in PeerNames : HasProof(peer[p]) /\ LatestOf(p)[1] = (Len(cpFinal) - 1) * Interval}
 
 RECURSIVE Agree(_, _, _, _)
+\* the SET of possible agreed prefixes: when two values reach the quorum with the same (maximal) count the
+\* implementation takes whichever its hash map yields first
 Agree(ps, idx, lenMax, acc) ==
-    IF idx > lenMax THEN acc
+    IF idx > lenMax THEN {acc}
     ELSE LET vals == {LatestOf(p)[2][idx] : p \in {q \in ps : Len(LatestOf(q)[2]) >= idx}}
              cnt(v) == Cardinality({p \in ps : Len(LatestOf(p)[2]) >= idx /\ LatestOf(p)[2][idx] = v})
              best == {v \in vals : \A u \in vals : cnt(u) <= cnt(v)}
-         IN IF best = {} THEN acc
-            ELSE LET v == CHOOSE x \in best : TRUE IN
-                 IF cnt(v) < Required THEN acc
-                 ELSE Agree({p \in ps : Len(LatestOf(p)[2]) >= idx /\ LatestOf(p)[2][idx] = v},
-                            idx + 1, lenMax, Append(acc, v))
+         IN IF best = {} \/ \E v \in best : cnt(v) < Required THEN {acc}
+            ELSE UNION {Agree(IF cnt(v) # Cardinality(ps)
+                              THEN {p \in ps : Len(LatestOf(p)[2]) >= idx /\ LatestOf(p)[2][idx] = v} ELSE ps,
+                              idx + 1, lenMax, Append(acc, v)) : v \in best}
 
 SortedLens(ps) ==
     LET ls == {<<Len(LatestOf(p)[2]), p>> : p \in ps} IN ls
@@ -174,12 +175,12 @@ LengthMax(ps) ==
                     /\ Cardinality({p \in ps : lens[p] <= n}) >= Required}
     IN IF cands = {} THEN 0 ELSE CHOOSE n \in cands : TRUE
 
-LatestQuorum ==
-    IF Cardinality(ProvenWithLatest) < Required THEN <<>>
+LatestQuorums ==
+    IF Cardinality(ProvenWithLatest) < Required THEN {<<>>}
     ELSE Agree(ProvenWithLatest, 1, LengthMax(ProvenWithLatest), <<>>)
 
 \* [ok, parent, exp]: the parent filter hash and the expected hashes for a batch starting at `start`
-Expected(start) ==
+Expected(start, lq) ==
     LET finalIdx == Len(cpFinal) - 1
         finalNum == finalIdx * Interval
     IN IF start <= finalNum
@@ -189,15 +190,82 @@ Expected(start) ==
             ELSE IF start = cNum + 1
             THEN [ok |-> TRUE, parent |-> cpFinal[cached[1] + 1], exp |-> cached[2]]
             ELSE LET si == start - cNum - 2 IN
-                 IF si + 1 > Len(cached[2]) THEN [ok |-> FALSE, parent |-> 0, exp |-> <<>>]   \* index panic in the code: never reached with honest data
+                 IF si + 1 > Len(cached[2]) THEN [ok |-> FALSE, parent |-> 0, exp |-> <<>>]   \* ignored (the code indexed out of bounds here before fix dd499e4)
                  ELSE [ok |-> TRUE, parent |-> cached[2][si + 1],
                        exp |-> SubSeq(cached[2], si + 2, Len(cached[2]))]
-       ELSE LET lq == LatestQuorum IN
-            IF start = finalNum + 1
+       ELSE IF start = finalNum + 1
             THEN [ok |-> TRUE, parent |-> cpFinal[finalIdx + 1], exp |-> lq]
             ELSE LET si == start - finalNum - 2 IN
                  IF si >= Len(lq) THEN [ok |-> FALSE, parent |-> 0, exp |-> <<>>]
                  ELSE [ok |-> TRUE, parent |-> lq[si + 1], exp |-> SubSeq(lq, si + 2, Len(lq))]
+
+(***************************************************************************)
+(* BlockFilterHashes (BlockFilterHashesProcess + LatestBlockFilterHashes:: *)
+(* update_latest_block_filter_hashes), transcribed.                        *)
+(*   result: [res: "ok" | "ignore" | "ban", latest, cached]                *)
+(***************************************************************************)
+SeqFrom(s, i) == IF i > Len(s) THEN <<>> ELSE SubSeq(s, i, Len(s))      \* s[i..] (1-based)
+\* the common part of two sequences agrees
+ZipAgrees(a, b) == \A i \in 1..Min(Len(a), Len(b)) : a[i] = b[i]
+
+UpdateLatest(lat, lastProved, finalNum, finalCp, start, parent, hs0) ==
+    LET no(r) == [res |-> r, latest |-> lat] IN
+    IF hs0 = <<>> THEN no("ban")
+    ELSE IF finalNum >= lastProved \/ finalNum # lat[1] \/ start > lastProved THEN no("ignore")
+    ELSE LET end0 == start + Len(hs0) - 1 IN
+    IF finalNum >= end0 \/ start > lat[1] + Len(lat[2]) + 1 THEN no("ignore")
+    ELSE LET hs == IF end0 > lastProved THEN SubSeq(hs0, 1, Len(hs0) - (end0 - lastProved)) ELSE hs0
+             inner == lat[2]
+             \* <<ok, start index into the old hashes, start index into the new ones>> (0-based)
+             pos == IF start <= finalNum
+                    THEN <<hs[finalNum - start + 1] = finalCp, 0, finalNum - start + 1>>
+                    ELSE IF start = finalNum + 1 THEN <<parent = finalCp, 0, 0>>
+                    ELSE <<inner[start - finalNum - 1] = parent, start - finalNum - 1, 0>>
+         IN IF ~pos[1] THEN no("ban")
+            ELSE IF ~ZipAgrees(SeqFrom(inner, pos[2] + 1), SeqFrom(hs, pos[3] + 1)) THEN no("ignore")
+            ELSE LET idx == pos[3] + (Len(inner) - pos[2]) IN
+                 [res |-> "ok", latest |-> <<lat[1], IF idx < Len(hs) THEN inner \o SeqFrom(hs, idx + 1) ELSE inner>>]
+
+\* the cached hashes (below the last final check point)
+UpdateCached(start, parent, hs) ==
+    LET cNum == cached[1] * Interval
+        nextNum == (cached[1] + 1) * Interval
+        ch == cached[2]
+        no(r) == [res |-> r, cached |-> cached]
+    IN IF start > cNum + Len(ch) + 1 THEN no("ignore")
+       ELSE LET cCp == cpFinal[cached[1] + 1]
+                nextCp == cpFinal[cached[1] + 2]
+                end == start + Len(hs) - 1
+                offset == start - (cNum + 1)
+            IN IF start = cNum + 1 /\ cCp # parent THEN no("ban")
+               ELSE IF start # cNum + 1 /\ ch[start - cNum - 1] # parent THEN no("ignore")
+               ELSE IF end > nextNum /\ hs[Len(hs) - (end - nextNum)] # nextCp THEN no("ban")
+               ELSE IF ~ZipAgrees(SeqFrom(ch, offset + 1), hs) THEN no("ignore")
+               ELSE LET startIndex == Len(ch) - offset
+                        newSize == IF end > nextNum THEN Len(hs) - (end - nextNum) ELSE Len(hs)
+                    IN [res |-> "ok",
+                        cached |-> <<cached[1], IF startIndex < newSize THEN ch \o SubSeq(hs, startIndex + 1, newSize) ELSE ch>>]
+
+\* m = [start, parent, hs]
+RecvFilterHashes(p, m) ==
+    LET s == peer[p]
+        finalNum == (Len(cpFinal) - 1) * Interval
+        cNum == cached[1] * Interval
+        nextNum == (cached[1] + 1) * Interval
+        same == /\ out'.ban = {} /\ cached' = cached /\ pf'[p].latest = pf[p].latest
+    IN
+    /\ \A q \in PeerNames \ {p} : pf'[q].latest = pf[q].latest
+    /\ IF s.st = "None" \/ ~HasProof(s) THEN same
+       ELSE IF m.hs = <<>> /\ ~(m.start > finalNum) /\ ~(m.start <= finalNum /\ cNum < m.start /\ m.start <= nextNum) THEN same
+       ELSE IF m.start <= finalNum /\ cNum < m.start /\ m.start <= nextNum
+       THEN \E r \in {UpdateCached(m.start, m.parent, m.hs)} :
+              /\ cached' = r.cached /\ pf'[p].latest = pf[p].latest
+              /\ out'.ban = IF r.res = "ban" THEN {p} ELSE {}
+       ELSE IF m.start > finalNum
+       THEN \E r \in {UpdateLatest(pf[p].latest, Num(world, s.proved), finalNum, cpFinal[Len(cpFinal)], m.start, m.parent, m.hs)} :
+              /\ pf'[p].latest = r.latest /\ cached' = cached
+              /\ out'.ban = IF r.res = "ban" THEN {p} ELSE {}
+       ELSE same
 
 \* chained hash: filter data of block f on top of parent hash `par` gives fid f iff par is fid of f's parent
 ChainHash(par, f) == IF f # 0 /\ Par(world, f) = par THEN f ELSE -1
@@ -235,7 +303,7 @@ RecvFilters(p, m) ==
        THEN /\ out'.ban = {p} /\ UNCHANGED <<scripts, minF, mdb, mmem>> /\ IxUnchanged
        ELSE IF n = 0
        THEN /\ out'.ban = {} /\ UNCHANGED <<scripts, minF, mdb, mmem>> /\ IxUnchanged
-       ELSE LET e == Expected(m.start) IN
+       ELSE \E e \in {Expected(m.start, lq) : lq \in LatestQuorums} :
             IF ~e.ok
             THEN /\ out'.ban = {} /\ UNCHANGED <<scripts, minF, mdb, mmem>> /\ IxUnchanged
             ELSE LET limit == Min(n, Len(e.exp)) IN
